@@ -6,6 +6,7 @@ that `dP_drho`, `dP_de` are correct at the state), the hand-coded `determinant` 
 Hypotheses: what the constructor accepts (`NohIC.Admissible 0`, P₀ = 0) and ρ ≠ 0 (the guard of every method).
 -/
 import EPV.Lemmas.C16ResDefs
+import EPV.Lemmas.Bridge.EosTac
 
 set_option linter.all false
 
@@ -21,9 +22,6 @@ theorem sPressureS0_jacobian (s : EOS) (ic : NohIC) (ρ x : ℝ) (hic : ic.Admis
     (hs : s.PressureDerivsAt ρ x) :
     IsJacobian2 (SPressureS0.F s ic) (SPressureS0.J s ic ρ x) ρ x := by
   obtain ⟨hu, hr0, hP0, hm⟩ := hic
-  have k0 : ¬ (0 ≤ ic.u_0) := not_le.mpr hu
-  have k1 : ¬ (ic.rho_0 ≤ 0) := not_le.mpr hr0
-  have k3 := eq_true hP
   set p := SPressureS0.pres s ic ρ x with hp
   intro i
   fin_cases i <;> (try simp only [Fin.zero_eta, Fin.mk_one, Fin.reduceFinMk])
@@ -35,68 +33,66 @@ theorem sPressureS0_jacobian (s : EOS) (ic : NohIC) (ρ x : ℝ) (hic : ic.Admis
       have hev : (fun r => SPressureS0.F s ic r x 0) =ᶠ[nhds ρ]
           fun r => s.P r x - ic.u_0 ^ 2 * ic.rho_0 - s.P r x / r * ic.rho_0 := by
         filter_upwards [isOpen_ne.mem_nhds hρ] with r hr
-        simp only [SPressureS0.F, epv_c16, epv_tree, epv_cond, epv_leaf, hr, k0, k1, k3, if_true, if_false, Matrix.cons_val]
+        simp only [SPressureS0.F] <;> epv_eos_res_eq
       refine (hg.congr_of_eventuallyEq hev).congr_deriv ?_
-      simp only [SPressureS0.J, epv_c16, epv_tree, epv_cond, epv_leaf, hρ, k0, k1, k3, if_true, if_false, Matrix.of_apply, Matrix.cons_val]
-      field_simp
+      simp only [SPressureS0.J] <;> epv_eos_res_eq
     · have hg : HasDerivAt (fun q => s.P ρ q - ic.u_0 ^ 2 * ic.rho_0 - s.P ρ q / ρ * ic.rho_0)
           (s.dP_de ρ x - s.dP_de ρ x / ρ * ic.rho_0) x :=
         (hs.2.sub_const _).sub ((hs.2.div_const ρ).mul_const _)
       have hev : (fun q => SPressureS0.F s ic ρ q 0) = fun q => s.P ρ q - ic.u_0 ^ 2 * ic.rho_0 - s.P ρ q / ρ * ic.rho_0 := by
         funext q
-        simp only [SPressureS0.F, epv_c16, epv_tree, epv_cond, epv_leaf, hρ, k0, k1, k3, if_true, if_false, Matrix.cons_val]
+        simp only [SPressureS0.F] <;> epv_eos_res_eq
       rw [hev]
       refine hg.congr_deriv ?_
-      simp only [SPressureS0.J, epv_c16, epv_tree, epv_cond, epv_leaf, hρ, k0, k1, k3, if_true, if_false, Matrix.of_apply, Matrix.cons_val]
-      field_simp
+      simp only [SPressureS0.J] <;> epv_eos_res_eq
   · refine ⟨?_, ?_⟩
     · have hc : HasDerivAt (fun r => ResSPressureAbsS0_res.L4.F1 p r x) (ResSPressureAbsS0_res.L4.F1_drho p ρ x) ρ := by
-        apply ResSPressureAbsS0_res.L4.F1_hasDerivAt_rho <;> assumption
+        epv_eos_cert ResSPressureAbsS0_res.L4.F1_hasDerivAt_rho p ρ x
       have hev : (fun r => SPressureS0.F s ic r x 1) =ᶠ[nhds ρ] fun r => ResSPressureAbsS0_res.L4.F1 p r x := by
         filter_upwards [isOpen_ne.mem_nhds hρ] with r hr
-        simp only [SPressureS0.F, hp, epv_c16, epv_tree, epv_cond, epv_leaf, hr, k0, k1, k3, if_true, if_false, Matrix.cons_val]
+        simp only [SPressureS0.F, hp] <;> epv_eos_res_eq
       refine (hc.congr_of_eventuallyEq hev).congr_deriv ?_
-      simp only [SPressureS0.J, hp, epv_c16, epv_tree, epv_cond, epv_leaf, epv_deriv, hρ, k0, k1, k3, if_true, if_false, Matrix.of_apply, Matrix.cons_val]
+      simp only [SPressureS0.J, hp] <;> epv_eos_res_eq
     · have hc : HasDerivAt (fun q => ResSPressureAbsS0_res.L4.F1 p ρ q) (ResSPressureAbsS0_res.L4.F1_dsie p ρ x) x := by
-        apply ResSPressureAbsS0_res.L4.F1_hasDerivAt_sie <;> assumption
+        epv_eos_cert ResSPressureAbsS0_res.L4.F1_hasDerivAt_sie p ρ x
       have hev : (fun q => SPressureS0.F s ic ρ q 1) = fun q => ResSPressureAbsS0_res.L4.F1 p ρ q := by
         funext q
-        simp only [SPressureS0.F, hp, epv_c16, epv_tree, epv_cond, epv_leaf, hρ, k0, k1, k3, if_true, if_false, Matrix.cons_val]
+        simp only [SPressureS0.F, hp] <;> epv_eos_res_eq
       rw [hev]
       refine hc.congr_deriv ?_
-      simp only [SPressureS0.J, hp, epv_c16, epv_tree, epv_cond, epv_leaf, epv_deriv, hρ, k0, k1, k3, if_true, if_false, Matrix.of_apply, Matrix.cons_val]
+      simp only [SPressureS0.J, hp] <;> epv_eos_res_eq
 
 /-- the hand-coded `determinant` is the determinant of `F_prime` -/
 theorem sPressureS0_det (s : EOS) (ic : NohIC) (ρ x : ℝ) (hic : ic.Admissible 0) (hP : ic.P_0 = 0) (hρ : ρ ≠ 0) :
     SPressureS0.detv s ic ρ x = (SPressureS0.J s ic ρ x).det := by
   obtain ⟨hu, hr0, hP0, hm⟩ := hic
-  have k0 : ¬ (0 ≤ ic.u_0) := not_le.mpr hu
-  have k1 : ¬ (ic.rho_0 ≤ 0) := not_le.mpr hr0
-  have k3 := eq_true hP
   rw [Matrix.det_fin_two]
-  -- `determinant` returns the same expression on both sides of its `det == 0` warning branch: merge them first
-  simp only [SPressureS0.detv, epv_tree, epv_leaf, ite_self]
-  simp only [SPressureS0.J, epv_c16, epv_tree, epv_cond, epv_leaf, hρ, k0, k1, k3, if_true, if_false,
-    Matrix.of_apply, Matrix.cons_val]
-  ring
+  -- `determinant` returns the same expression on both sides of its `det == 0` warning branch: the guards the
+  -- context does not decide are split, both cases are the same identity
+  simp only [SPressureS0.detv, SPressureS0.J] <;> epv_eos_res_eq
 
 /-- the hand-coded `F_prime_inv` inverts `F_prime` wherever the class does not raise `ZeroDeterminantError` -/
 theorem sPressureS0_inverse (s : EOS) (ic : NohIC) (ρ x : ℝ) (hic : ic.Admissible 0) (hP : ic.P_0 = 0) (hρ : ρ ≠ 0)
     (hdet : SPressureS0.detv s ic ρ x ≠ 0) :
     SPressureS0.Jinv s ic ρ x * SPressureS0.J s ic ρ x = 1 := by
   obtain ⟨hu, hr0, hP0, hm⟩ := hic
-  have k0 : ¬ (0 ≤ ic.u_0) := not_le.mpr hu
-  have k1 : ¬ (ic.rho_0 ≤ 0) := not_le.mpr hr0
-  have k3 := eq_true hP
-  generalize hd : SPressureS0.detv s ic ρ x = d at hdet
-  simp only [SPressureS0.detv, epv_tree, epv_leaf, ite_self] at hd
-  simp only [epv_c16, epv_cond, hρ, k0, k1, k3, if_true, if_false] at hd
+  have hdet' := hdet
+  -- `determinant` returns the same expression on both sides of its `det == 0` warning branch: merge them first
+  simp only [SPressureS0.detv, epv_tree, epv_leaf, ite_self] at hdet'
+  simp only [epv_c16] at hdet'
+  revert hdet'
+  epv_eos_ifs
+  intro hdet'
+  epv_eos_gen_ne hdet'
+  -- the guards of all entries of `F_prime_inv` and `F_prime` are decided once, at matrix level
+  simp only [SPressureS0.Jinv, SPressureS0.J, epv_c16]
+  simp only [epv_tree]
+  epv_eos_ifs
   ext i j
   fin_cases i <;> fin_cases j <;>
-    simp only [SPressureS0.Jinv, SPressureS0.J, epv_c16, epv_tree, epv_cond, epv_leaf, hρ, hd, hdet, k0, k1, k3, if_true, if_false,
-      Matrix.mul_apply, Fin.sum_univ_two, Matrix.one_apply, Fin.reduceEq, Matrix.of_apply, Matrix.cons_val, Fin.zero_eta, Fin.mk_one,
-      Fin.reduceFinMk, Fin.isValue] <;>
-    (try field_simp) <;> (try simp only [← hd]) <;> (try field_simp) <;> (try ring)
+    (simp only [Matrix.mul_apply, Fin.sum_univ_two, Matrix.one_apply, Fin.reduceEq, if_true, if_false, Matrix.of_apply, Matrix.cons_val, Fin.zero_eta, Fin.mk_one, Fin.reduceFinMk, Fin.isValue]
+     simp only [epv_leaf]
+     epv_eos_inv_entry)
 
 /-- non-vacuity: the default initial state ρ₀ = 1, u₀ = -1, P₀ = 0 is admissible -/
 example : (⟨1, -1, 0⟩ : NohIC).Admissible 0 ∧ (⟨1, -1, 0⟩ : NohIC).P_0 = 0 := by
